@@ -1126,3 +1126,93 @@ M("C17", "tmat: new exit on file value", "src/tmat.c", """    t->n_state = n_src
         E_FATAL("too many states\\n");
 """, "EXIT.loader")
 M("C17", "benign: gauden count test as < 1", "src/ms_gauden.c", "    if (n_mgau <= 0 || n_feat <= 0 || n_density <= 0) {", "    if (n_mgau < 1 || n_feat < 1 || n_density < 1) {", None, "benign")
+
+# ---- C10 ----------------------------------------------------------------------
+M("C10", "tag_trans: fatal again", "src/fsg_model.c", """        E_ERROR("Null transition prob must be <= 1.0 (state %d -> %d), "
+                "using 1.0\\n",
+                from, to);
+        logp = 0;""", """        E_FATAL("Null transition prob must be <= 1.0 (state %d -> %d)\\n",
+                from, to);""", "EXIT.input")
+M("C10", "dict: new exit on a malformed line", "src/dict.c", """            E_ERROR("Line %d: No pronunciation for word '%s'; ignored\\n",
+                    lineno, word);""", """            E_FATAL("Line %d: No pronunciation for word '%s'\\n",
+                    lineno, word);""", "EXIT.input")
+M("C10", "decoder_init_grammar: fsg freed after failed set_fsg (revert)", "src/decoder.c", """        /* decoder_set_fsg() consumes fsg, also when it fails. */
+        if (decoder_set_fsg(d, fsg) != 0)
+            return -1;""", """        if (decoder_set_fsg(d, fsg) != 0) {
+            fsg_model_free(fsg);
+            return -1;
+        }""", "OWN.consume", first=True)
+M("C10", "set_align_text: fsg used after set_fsg", "src/decoder.c", """    /* decoder_set_fsg() consumes fsg, also when it fails. */
+    if (decoder_set_fsg(d, fsg) < 0)
+        return -1;
+    return 0;""", """    if (decoder_set_fsg(d, fsg) < 0)
+        return -1;
+    return fsg_model_n_word(fsg) > 0 ? 0 : -1;""", "OWN.consume")
+M("C10", "fsg reader: word freed but not cleared (seed C10-1 core)", "src/fsg_model.c", """                } else {
+                    ckd_free(val);
+                }
+                val = NULL; /* Do not free it one way or the other */""", """                    val = NULL;
+                } else {
+                    ckd_free(val);
+                }""", "UNWIND")
+M("C10", "fsg reader: from-state converted in place again", "src/fsg_model.c", """            i = (int)strtol(val, &endptr, 10);
+            if (endptr == val || i < 0 || i >= fsg->n_state) {""", """            i = (int)strtol(word, &endptr, 10);
+            if (endptr == word || i < 0 || i >= fsg->n_state) {""", "SPAN")
+M("C10", "fsg reader: upper bound of to-state dropped", "src/fsg_model.c", "            if (endptr == val || j < 0 || j >= fsg->n_state) {", "            if (endptr == val || j < 0) {", "NUM.range")
+M("C10", "fsg reader: lower bound of from-state dropped", "src/fsg_model.c", "            if (endptr == val || i < 0 || i >= fsg->n_state) {", "            if (endptr == val || i >= fsg->n_state) {", "NUM.range")
+M("C10", "fsg reader: probability upper bound dropped", "src/fsg_model.c", "            if ((p <= 0.0) || (p > 1.0)) {", "            if (p <= 0.0) {", "NUM.range")
+M("C10", "fsg reader: final state not range-tested", "src/fsg_model.c", "    if (endptr == val || fsg->final_state < 0 || fsg->final_state >= fsg->n_state) {", "    if (endptr == val || fsg->final_state < 0) {", "NUM.range")
+M("C10", "fsg reader: negative state count accepted", "src/fsg_model.c", "    if (endptr == val || n_state < 0) {", "    if (endptr == val) {", "NUM.range")
+M("C10", "dict: word copy leaked when the line has no pronunciation", "src/dict.c", """                    lineno, word);
+            ckd_free(word);
+            continue;""", """                    lineno, word);
+            continue;""", "UNWIND")
+M("C10", "dict: comment test without the length test (revert)", "src/dict.c", """    return dict->ptr - line >= 2
+        && (0 == strncmp(line, "##", 2) || 0 == strncmp(line, ";;", 2));""", """    return (0 == strncmp(line, "##", 2) || 0 == strncmp(line, ";;", 2));""", "SPAN")
+M("C10", "dict: length test too short", "src/dict.c", "    return dict->ptr - line >= 2\n", "    return dict->ptr - line >= 1\n", "SPAN")
+M("C10", "dict: buffer sized from an empty first line (revert)", "src/dict.c", """        if (nwd == 0) /* Empty line */
+            continue;
+        if (p == NULL) {
+            maxwd = nwd * 2; /* Some extra space */
+            p = ckd_calloc(maxwd, sizeof(*p));
+        }""", """        if (p == NULL) {
+            maxwd = nwd * 2; /* Some extra space */
+            p = ckd_calloc(maxwd, sizeof(*p));
+        }
+        if (nwd == 0) /* Empty line */
+            continue;""", "LOOP.growth")
+M("C10", "fe: window bound back to 32767 (revert)", "src/fe_interface.c", "    if (window_samples > (MAX_INT16 + 1) / 2) {", "    if (window_samples > MAX_INT16) {", "LOOP.growth")
+M("C10", "grammar_s3file: cursor parsed as C string (revert)", "src/decoder.c", "        rv = decoder_set_jsgf_string(d, jsgf_string);", "        rv = decoder_set_jsgf_string(d, jsgf_file->ptr);", "SPAN")
+M("C10", "config: measure forgets form feed", "src/config.c", """        case '\\b':
+        case '\\f':
+        case '\\n':
+        case '\\r':
+        case '\\t':
+
+            measured_length += 2;""", """        case '\\b':
+        case '\\n':
+        case '\\r':
+        case '\\t':
+
+            measured_length += 2;""", "EMIT.config")
+M("C10", "config: key prefix counted short", "src/config.c", "    len += 2; /* \\t\\\" */", "    len += 1; /* \\t\\\" */", "EMIT.config")
+M("C10", "config: value suffix writes one more", "src/config.c", """        *ptr++ = '"';
+        *ptr++ = ',';
+        *ptr++ = '\\n';
+        maxlen -= 3;""", """        *ptr++ = '"';
+        *ptr++ = ',';
+        *ptr++ = ' ';
+        *ptr++ = '\\n';
+        maxlen -= 3;""", "EMIT.config")
+M("C10", "set_jsgf_string: parse result not tested", "src/decoder.c", """    jsgf_t *jsgf = jsgf_parse_string(jsgf_string, NULL);
+    float lw;
+    int result;
+
+    if (!jsgf)
+        return -1;
+""", """    jsgf_t *jsgf = jsgf_parse_string(jsgf_string, NULL);
+    float lw;
+    int result;
+
+""", "ERRD.null")
+M("C10", "benign: dict length test as > 1", "src/dict.c", "    return dict->ptr - line >= 2\n", "    return dict->ptr - line > 1\n", None, "benign")
